@@ -19,12 +19,22 @@ Ltac trig_ring := match goal with
   | H1 : _ * _ = 1 - _ |- _ => first [ring [H1] | field [H1] | (field_simplify_eq; ring [H1])]
   end.
 Ltac solve_entry := first [ field | ring | trig_ring | lazymatch goal with |- ?a = ?a => reflexivity end ].
+Ltac pc_zero := intros; autounfold with gen; ops_R; trig_abs; repeat split;
+  (let H := fresh "H" in intro H;
+   match type of H with ?b < ?a =>
+     let E := fresh "E" in assert (E : a = 0) by solve_entry; rewrite E in H; lra end).
 Ltac law := intros; unfold halves_eq; autounfold with gen; ops_R; cbn [firstn skipn]; trig_abs; list_eq solve_entry.
 
 Lemma law_mueller_compose_lin_row2 a00r a00i a01r a01i a10r a10i a11r a11i b00r b00i b01r b01i b10r b10i b11r b11i :
   halves_eq 4 (mueller_compose_lin_row2 (OO:=ROps) a00r a00i a01r a01i a10r a10i a11r a11i b00r b00i b01r b01i b10r b10i b11r b11i).
 Proof. law. Qed.
 
+Lemma pc_mueller_compose_lin_row2 a00r a00i a01r a01i a10r a10i a11r a11i b00r b00i b01r b01i b10r b10i b11r b11i : mueller_compose_lin_row2_pc (OO:=ROps) a00r a00i a01r a01i a10r a10i a11r a11i b00r b00i b01r b01i b10r b10i b11r b11i.
+Proof. pc_zero. Qed.
+
 Lemma law_mueller_derivative_lin_row2 j00r j00i j01r j01i j10r j10i j11r j11i g00r g00i g01r g01i g10r g10i g11r g11i t :
   halves_eq 4 (mueller_derivative_lin_row2 (OO:=ROps) j00r j00i j01r j01i j10r j10i j11r j11i g00r g00i g01r g01i g10r g10i g11r g11i t).
 Proof. law. Qed.
+
+Lemma pc_mueller_derivative_lin_row2 j00r j00i j01r j01i j10r j10i j11r j11i g00r g00i g01r g01i g10r g10i g11r g11i t : mueller_derivative_lin_row2_pc (OO:=ROps) j00r j00i j01r j01i j10r j10i j11r j11i g00r g00i g01r g01i g10r g10i g11r g11i t.
+Proof. pc_zero. Qed.
